@@ -68,9 +68,7 @@ class Dump:
         for f, fn in cands:
             if f == cur_file:
                 return (f, fn)
-        if len(cands) == 1:
-            return cands[0]
-        # prefer the nom crate's lib for imported names
+        # names imported with `use xml_nom::{..}`: only the nom crate's lib is searched
         for f, fn in cands:
             if f.endswith("nom/src/lib.rs"):
                 return (f, fn)
